@@ -27,10 +27,92 @@ CFG = {
                 "del_ref": 0.8, "set_mref": 0.4, "set_value": 1.0, "eval": 2.0, "evalall": 0.5, "bad": 5.0},
     "clash_wide": True,
 }
+# a second stream of random histories (the draws of the first do not move): the malformed part offers formulas as
+# Python OBJECTS (struct_props.gen_bad_obj / formula_objs) through every API that takes a formula; parametrised
+# spaces and their ItemSpaces, more inputs - the things such an edit can destroy
+CFG_OBJ = dict(CFG, weights=dict(CFG["weights"], bad=2.0, bad_obj=4.0, set_param=0.8, eval_item=0.8, set_value=2.0,
+                                 add_bases=1.5, new_cells=3.0))
 RULE = ("random histories (12-26 ops) in which about a quarter of the operations are invalid on purpose (invalid and "
         "clashing names, cyclic bases, bases without linearisation, deleting/renaming derived members, malformed "
-        "formulas, unassignable values); non-trivial = at least two different rejection reasons occurred after the "
-        "model held values")
+        "formulas - as source text and as Python objects: lambdas defined several on a line, functions without "
+        "retrievable source, builtins, partials, callables, unusual signatures, through new_cells / cells.formula / "
+        "set_formula / defcells / the formula of a space -, unassignable values); non-trivial = at least two different "
+        "rejection reasons occurred after the model held values")
+
+
+KNOWN_SPACE_FORMULA = "C11-space-formula-discarded-before-validation"
+KNOWN_SOURCELESS = "C11-sourceless-function-formula"
+
+
+def sourceless_function(obj):
+    """a Python function whose source text cannot be retrieved (built by exec / eval / types.FunctionType)"""
+    import inspect
+    import types
+    if not isinstance(obj, types.FunctionType):
+        return False
+    try:
+        inspect.getsource(obj)
+        return False
+    except (OSError, TypeError):
+        return True
+
+
+def target_sourceless(live, op):
+    """the cells an operation is about (or a cells deriving from it) has a formula without source text: it was
+    created from a function whose source cannot be retrieved (modelx warns and accepts)"""
+    try:
+        if op[0] in ("set_formula", "set_formula_obj", "rename_cells", "set_cached", "del_cells", "set_value"):
+            sp = live.space(op[1])
+            for impl in api.subs_of(sp):
+                c = impl.cells.get(op[2]) if hasattr(impl.cells, "get") else None
+                if c is not None and c.formula is not None and c.formula.source is None:
+                    return True
+    except Exception:   # noqa
+        return False
+    return False
+
+
+def classify(live, op, result, before, after, was_sourceless):
+    """known findings, recognised from the operation, its outcome and what the implementation did"""
+    from .. import formula_objs as FO
+    if result == "err Deleted":
+        # an operation that trips over a reference to a deleted object half-way is the
+        # recorded dangling-reference finding (C13-deleted-object-in-formula-globals)
+        return "C11-dangling-reference"
+    text = str(live.last_exc) if live.last_exc is not None else ""
+    if op[0] in ("set_param_obj", "set_param") and before["spaces"].get(op[1], {}).get("param") \
+            and not after["spaces"].get(op[1], {}).get("param"):
+        # a parametrised space was given a formula modelx refuses: the old formula and the ItemSpaces are
+        # discarded before the new one is built.  Every difference is the space's formula / ItemSpaces, or a
+        # held value that went with the ItemSpaces
+        ok = True
+        for p in set(before["spaces"]) | set(after["spaces"]):
+            a, b = before["spaces"].get(p), after["spaces"].get(p)
+            if a is None or b is None:
+                ok = False
+                break
+            for key in a:
+                if a[key] == b[key] or (p == op[1] and key in ("param", "items", "param_src")):
+                    continue
+                if key == "cells" and set(a[key]) == set(b[key]) and all(
+                        {k: v for k, v in a[key][n].items() if k != "values"} == {k: v for k, v in b[key][n].items() if k != "values"}
+                        and set(b[key][n]["values"]) <= set(a[key][n]["values"])
+                        and all(not v.endswith("I") for v in set(a[key][n]["values"]) - set(b[key][n]["values"]))
+                        for n in a[key]):
+                    continue
+                ok = False
+        if ok and before["mrefs"] == after["mrefs"]:
+            return KNOWN_SPACE_FORMULA
+    if op[0] == "set_formula_obj" and text == "Invalid argument func: None" and sourceless_function(FO.make(op[3])):
+        # a function whose source cannot be retrieved: new_cells accepts it (with a warning, source None); given to
+        # an EXISTING cells it passes the validation up front, and the Formula is then rebuilt from its source
+        # text - None - after the values and inputs were cleared
+        return KNOWN_SOURCELESS
+    if was_sourceless and result in ("err Attribute", "err Value", "err Type"):
+        # ... and a cells that got such a formula at its creation raises half-way through later edits of it
+        # (rename, formula assignment: the Formula has no source and no `_is_lambda`)
+        return KNOWN_SOURCELESS
+    return None
 
 
 def valid_name(n):
@@ -45,11 +127,12 @@ class H(S.Hooks):
         if getattr(self, "broken", False):
             self.desc = None
             return
-        self.desc = W.describe(live.m) if op[0] not in ("eval", "evalall") else None
+        self.desc = W.describe(live.m, with_items=True) if op[0] not in ("eval", "evalall", "eval_item") else None
         self.ident = api.identities(live.m) if self.desc is not None else None
+        self.was_sourceless = target_sourceless(live, op) if self.desc is not None else False
 
     def after(self, live, ops, k, op, result, out, stats):
-        if op[0] in ("eval", "evalall") or getattr(self, "broken", False):
+        if op[0] in ("eval", "evalall", "eval_item") or getattr(self, "broken", False):
             return
         hist = S.hist_json(ops, k)
         if result.startswith("err"):
@@ -58,7 +141,7 @@ class H(S.Hooks):
             if len(self.reasons) >= 2:
                 self.nontrivial = True
             try:
-                after = W.describe(live.m)
+                after = W.describe(live.m, with_items=True)
             except Exception as e:   # noqa
                 # the refused edit left the model in a state that cannot even be described (e.g. a deleted
                 # space still listed among the bases of a live one)
@@ -67,9 +150,7 @@ class H(S.Hooks):
                 self.broken = True
                 return
             if after != self.desc:
-                # an operation that trips over a reference to a deleted object half-way is the
-                # recorded dangling-reference finding (C13-deleted-object-in-formula-globals)
-                key = "C11-dangling-reference" if result == "err Deleted" else None
+                key = classify(live, op, result, self.desc, after, self.was_sourceless)
                 out.fail("%s raised (%s) but changed the model: %s" % (op[0], result, _diff(self.desc, after)), hist,
                          key=key)
             elif self.ident is not None and api.identities(live.m) != self.ident:
@@ -123,6 +204,25 @@ def run(ctx, out):
                              "for (model-level reference of the name created before / after / not at all), followed by "
                              "re-deriving edits; %d contain a refused edit" % (len(fam), refused))
     api.run_struct(ctx, out, stats, H, CFG, S.run_one)
+    fam = S.formula_object_family()
+    S.run_family(out, stats, fam, H, CFG, "formula_object_family")
+    out.coverage["evaluations"] += len(fam)
+    n_obj = ctx.n(30, 600)
+    for i in range(n_obj):
+        rng = ctx.rng("objhist", i)
+        sub = core.Outcome()
+        S.run_one([], sub, stats, H(), CFG_OBJ, rng=rng, n_ops=rng.randint(14, 28))
+        S.merge(out, sub)
+        stats["formula_object_histories"] += 1
+        if len([f for f in out.failures if not f.get("key")]) >= 6:
+            break
+    out.coverage["evaluations"] += n_obj
+    out.coverage["rule"] += ("; plus the formula-object family (struct_props.formula_object_family): for each of %d kinds "
+                             "of Python object offered as a formula, every API that accepts one (cells.formula =, "
+                             "set_formula, defcells on an existing cells, new_cells, the formula of a parametrised space "
+                             "by attribute and by method, new_space(formula=)) on a derived cells, a cells holding "
+                             "inputs, a caller, a space with ItemSpaces; plus %d random histories whose malformed stream "
+                             "offers such objects (struct_props.gen_bad_obj)" % (len(fam), n_obj))
     out.coverage["input_distribution"] = dict(stats)
 
 
